@@ -4,4 +4,4 @@ Require Extraction.
 Require Import ExtrOcamlBasic.
 From DV Require Import Lib.Base Routing.Routing Routing.Expire Spec.RoutingSpec.
 Extraction Language OCaml.
-Extraction "model_routing.ml" init step wf_event run resolve oracle_step age open_keys plain expected_noreplies noreplies eavesdroppers is_full xinit xstep held_for activatable can_send.
+Extraction "model_routing.ml" init step wf_event run resolve oracle_step age open_keys plain expected_noreplies noreplies eavesdroppers is_full xinit xstep held_for activatable can_send drv_eavesdroppers.
